@@ -49,7 +49,7 @@ def acyclic(n, edges):
     return seen == n
 
 
-def build(n, edges, ctxs, enum_leaves, nfiles, tag):
+def build(n, edges, ctxs, enum_leaves, nfiles, tag, external=False):
     """edges: list of (i, j) meaning Ti has a field of a type mentioning Tj; ctxs: per-edge context index"""
     names = ["%sN%d" % (tag, i) for i in range(n)]
     out_edges = {i: [] for i in range(n)}
@@ -61,7 +61,8 @@ def build(n, edges, ctxs, enum_leaves, nfiles, tag):
         if i in leaves and enum_leaves and i % 2 == 1:
             src = rg.enum_src(names[i], [("A",), ("B",)], derive_style=rg.DERIVE_STYLES[(i + n) % len(rg.DERIVE_STYLES)])
         else:
-            src = rg.struct_src(names[i], [("id", "i32")] + [("f%d" % k, rg.rust(ty)) for k, (j, ty) in enumerate(out_edges[i])],
+            ext = [("ext_id", "Uuid"), ("stamps", "Vec<DateTime<Utc>>")] if external and i % 2 == 0 else []
+            src = rg.struct_src(names[i], [("id", "i32")] + ext + [("f%d" % k, rg.rust(ty)) for k, (j, ty) in enumerate(out_edges[i])],
                                 derive_style=rg.DERIVE_STYLES[(i + len(edges)) % len(rg.DERIVE_STYLES)])
         body.setdefault("m%d.rs" % (i % nfiles), []).append(src)
     cmd = rg.command_src("root_%s" % tag.lower(), [("p%d" % i, names[i]) for i in range(n)], "Vec<%s>" % names[0])
@@ -111,8 +112,10 @@ def scan(out):
 
 
 def run_case(a):
-    cli, key, n, edges, ctxs, enum_leaves, nfiles, seeds = a
-    files, names = build(n, edges, ctxs, enum_leaves, nfiles, "G")
+    cli, key, n, edges, ctxs, enum_leaves, nfiles, seeds = a[:8]
+    external = len(a) > 8 and a[8]
+    files, names = build(n, edges, ctxs, enum_leaves, nfiles, "G", external)
+    cfg = {"type_mappings": {"Uuid": "string", "DateTime<Utc>": "string"}} if external else None
     orders = set()
     viol = []
     blocked = 0
@@ -121,7 +124,7 @@ def run_case(a):
         common.write_tree(root + "/src", files)
         for hs in seeds:
             out_dir = "out_%s" % hs
-            g = proj.generate(cli, None, mode="zod", hash_seed=hs, root=root, out_name=out_dir, tag="c09")
+            g = proj.generate(cli, None, mode="zod", hash_seed=hs, root=root, out_name=out_dir, tag="c09", config=cfg)
             if g.run.timed_out:
                 return {"inconclusive": "watchdog"}
             if g.run.rc != 0:
@@ -167,7 +170,8 @@ def run(tier):
             if not edges and n > 1:
                 continue
             for c in range(nctx):
-                jobs.append((cli, ("exh", n, tuple(edges), c), n, edges, [c] * len(edges), n >= 3, min(n, 2 + c % 2), seeds_fixed))
+                # every other context additionally gives some structs fields of foreign types covered by type_mappings
+                jobs.append((cli, ("exh", n, tuple(edges), c), n, edges, [c] * len(edges), n >= 3, min(n, 2 + c % 2), seeds_fixed, c % 2 == 1))
     exhaustive_jobs = len(jobs)
     # sampled larger DAGs with mixed contexts
     nsamp = 100 if tier == "quick" else 3000
@@ -184,7 +188,7 @@ def run(tier):
         if not edges:
             continue
         ctxs = [rnd.randrange(len(CTX)) for _ in edges]
-        jobs.append((cli, ("rnd", s), n, edges, ctxs, True, rnd.randint(1, 3), seeds_fixed[: max(4, nseeds // 2)]))
+        jobs.append((cli, ("rnd", s), n, edges, ctxs, True, rnd.randint(1, 3), seeds_fixed[: max(4, nseeds // 2)], rnd.random() < 0.5))
     res = common.pmap(run_case, jobs, chunksize=2)
     total_orders = 0
     multi = 0
